@@ -3,6 +3,7 @@ package rules
 import (
 	"fmt"
 	"go/token"
+	"go/types"
 	"strings"
 
 	"golang.org/x/tools/go/ssa"
@@ -266,6 +267,15 @@ func checkC10(c *Ctx) {
 	c.R.Floor("G5.layout", 2)
 	c.R.Floor("G3.once", 1)
 	c.scopeGuard("scope", len(scope), 3, "library functions reachable from the descriptor readers")
+	c.ruleAppendOnly("G15.append", "efi/signature.WriteWinCertificate", "efi/signature.WriteWinCertificateUEFIGUID", "efi/signature.WriteEFIVariableAuthencation2")
+	c.R.Floor("G15.append", 3)
+	c.ruleShortCopy("G16.short", "efi/signature.ReadWinCertificate", "efi/signature.ReadWinCertificateUEFIGUID", "efi/signature.ReadEFIVariableAuthencation2")
+	c.R.Floor("G16.short", 3)
+	// the codecs keep nothing in package-level memory between calls
+	c.rulePureAs("E.state", []string{"efi/signature.ReadWinCertificate", "efi/signature.ReadWinCertificateUEFIGUID", "efi/signature.ReadEFIVariableAuthencation2",
+		"efi/signature.WriteWinCertificate", "efi/signature.WriteWinCertificateUEFIGUID", "efi/signature.WriteEFIVariableAuthencation2"})
+	c.R.Floor("E.state", 6)
+	c.ruleRecycle("P.recycle", func(f *ssa.Function) bool { return strings.Contains(name(f), "efi/signature.") })
 }
 
 // noDoubleEmission (G3): the UEFI_GUID writer emits the body as type GUID +
@@ -431,5 +441,169 @@ func (c *Ctx) ruleNoUpperBound(rule string, specs ...string) {
 		}
 		c.R.Check(bad == "", rule, name(fn), "length-upper-bound", c.Pos(fn.Pos()),
 			fmt.Sprintf("no declared length the format allows is rejected for being large (%d comparisons of length fields with constants examined)", n), bad+": descriptors the encoder produces are refused by the decoder")
+	}
+}
+
+// ruleAppendOnly (G15.append): an encoder adds its bytes at the end of the
+// buffer it is given. Bytes that are already in the buffer belong to whoever
+// wrote them; patching the buffer's content at an offset counted from its
+// start (instead of from where this structure begins: an offset remembered
+// from Len() before writing) corrupts earlier content whenever the buffer is
+// not empty.
+func (c *Ctx) ruleAppendOnly(rule string, specs ...string) {
+	for _, spec := range specs {
+		fn := c.Fn(rule, spec)
+		if fn == nil {
+			continue
+		}
+		dv := c.deepViewOf(fn, 3)
+		var stream *ssa.Parameter
+		for _, p := range fn.Params {
+			if ir.NamedTypeID(p.Type()) == "bytes.Buffer" {
+				stream = p
+			}
+		}
+		if stream == nil {
+			c.R.Okf(rule, name(fn), "append-only", c.Pos(fn.Pos()), "the encoder writes to an io.Writer: it cannot reach bytes already written")
+			continue
+		}
+		// base: v is (a reslice of) stream.Bytes(); returns the accumulated low bound
+		var base func(v ssa.Value, fr *frame, depth int) (Affine, bool)
+		base = func(v ssa.Value, fr *frame, depth int) (Affine, bool) {
+			if depth > 8 {
+				return Affine{}, false
+			}
+			r := dv.resolve(ir.StripConv(v), fr)
+			switch x := r.v.(type) {
+			case *ssa.Call:
+				if ir.CallID(x) == "bytes.Buffer.Bytes" && dv.isRootParam(x.Call.Args[0], r.fr, stream) {
+					return constAffine(0), true
+				}
+			case *ssa.Slice:
+				inner, ok := base(x.X, r.fr, depth+1)
+				if !ok {
+					return Affine{}, false
+				}
+				if x.Low != nil {
+					inner = inner.add(dv.affine(x.Low, r.fr, nil, 0), 1)
+				}
+				return inner, true
+			}
+			return Affine{}, false
+		}
+		bad, undecided := "", ""
+		judge := func(off Affine, at ssa.Instruction) {
+			rel := false
+			for _, v := range off.Sym {
+				if lc, ok := v.(*ssa.Call); ok && (ir.CallID(lc) == "bytes.Buffer.Len" || ir.CallID(lc) == "builtin.len") {
+					rel = true
+				}
+			}
+			switch {
+			case rel:
+			case off.isConst():
+				bad = fmt.Sprintf("the buffer's content is overwritten at %s at offset %d from the start of the buffer, not from the start of this structure", c.IPos(at), off.K)
+			default:
+				undecided = "the content of the buffer is patched at " + c.IPos(at) + " at offset " + off.String()
+			}
+		}
+		for _, di := range dv.order {
+			switch x := di.i.(type) {
+			case *ssa.Call:
+				id := ir.CallID(x)
+				args := ir.CallArgs(x)
+				pos := -1
+				switch {
+				case id == "builtin.copy":
+					pos = 0
+				case strings.HasPrefix(id, "encoding/binary.") && strings.Contains(id[strings.LastIndex(id, ".")+1:], "PutUint"):
+					pos = len(args) - 2
+				}
+				if pos < 0 || pos >= len(args) {
+					continue
+				}
+				if off, ok := base(args[pos], di.fr, 0); ok {
+					judge(off, x)
+				}
+			case *ssa.Store:
+				if ia, ok := x.Addr.(*ssa.IndexAddr); ok {
+					if off, ok := base(ia.X, di.fr, 0); ok {
+						judge(off.add(dv.affine(ia.Index, di.fr, nil, 0), 1), x)
+					}
+				}
+			}
+		}
+		if bad == "" && undecided != "" {
+			c.R.Infof(rule, name(fn), "append-only", c.Pos(fn.Pos()), "not decided for this shape: "+undecided)
+			continue
+		}
+		c.R.Check(bad == "", rule, name(fn), "append-only", c.Pos(fn.Pos()), "the encoder only appends: bytes already in the caller's buffer are not modified", bad)
+	}
+}
+
+// ruleShortCopy (G16.short): a fixed-width field filled with copy() from a
+// slice whose length the input decides is only complete if the length was
+// checked: copy() stops silently at the shorter operand and leaves the rest of
+// the field zero, so a body shorter than the field decodes to a made-up value.
+func (c *Ctx) ruleShortCopy(rule string, specs ...string) {
+	for _, spec := range specs {
+		fn := c.Fn(rule, spec)
+		if fn == nil {
+			continue
+		}
+		dv := c.deepViewOf(fn, 3)
+		n := 0
+		for _, di := range dv.order {
+			call, ok := di.i.(*ssa.Call)
+			if !ok || ir.CallID(call) != "builtin.copy" || !c.P.InLib(di.fr.fn) {
+				continue
+			}
+			dst, src := call.Call.Args[0], call.Call.Args[1]
+			dl := dv.sliceLen(dst, di.fr)
+			if !dl.isConst() || dl.K == 0 {
+				continue
+			}
+			// the destination is (part of) a fixed array
+			if sl, isSl := dv.resolve(dst, di.fr).v.(*ssa.Slice); !isSl {
+				continue
+			} else if pt, isP := sl.X.Type().Underlying().(*types.Pointer); !isP {
+				continue
+			} else if _, isArr := pt.Elem().Underlying().(*types.Array); !isArr {
+				continue
+			}
+			sLen := dv.sliceLen(src, di.fr)
+			if sLen.isConst() {
+				continue
+			}
+			n++
+			// a comparison of the source's length or of the copy count dominates / follows
+			guarded := false
+			srcRoot := dv.resolve(ir.StripConv(src), di.fr)
+			for sl, ok := srcRoot.v.(*ssa.Slice); ok; sl, ok = srcRoot.v.(*ssa.Slice) {
+				srcRoot = dv.resolve(sl.X, srcRoot.fr)
+			}
+			for _, ce := range ir.CondEdges(di.fr.fn) {
+				for v := range c.sliceOf(ce.Cond) {
+					if v == ssa.Value(call) {
+						guarded = true
+					}
+					if lc, isC := v.(*ssa.Call); isC && ir.CallID(lc) == "builtin.len" {
+						lr := dv.resolve(ir.StripConv(lc.Call.Args[0]), di.fr)
+						for sl, ok := lr.v.(*ssa.Slice); ok; sl, ok = lr.v.(*ssa.Slice) {
+							lr = dv.resolve(sl.X, lr.fr)
+						}
+						if lr.same(srcRoot) {
+							guarded = true
+						}
+					}
+				}
+			}
+			key := fmt.Sprintf("copy#%d", n)
+			c.R.Check(guarded, rule, name(fn), key, c.IPos(call), "a fixed-width field copied from input-sized bytes is preceded by a length check (or the copy count is tested)",
+				fmt.Sprintf("%d bytes are copied into a fixed field from a slice of length %s and neither that length nor the number of bytes copied is tested anywhere in %s: a shorter source leaves the rest of the field zero", dl.K, sLen.String(), name(di.fr.fn)))
+		}
+		if n == 0 {
+			c.R.Okf(rule, name(fn), "scan", c.Pos(fn.Pos()), "no fixed-width field is filled by copy() from bytes of input-dependent length")
+		}
 	}
 }
